@@ -74,7 +74,7 @@ _ENV = 'Assumed contracts (trusted): std HashMap as a map view; common/deque.rs 
 CLAIMS = {
     'C01': dict(technique='Verus contracts on the extracted unsync insert/get/contains_key/invalidate* functions + relational lemmas',
                 text='every lookup answer is specified as a function of the map view (value of the resident binding, absent after invalidate*) and proved for all keys, hashers, weights, capacities and clock readings',
-                note=_UNS + _ENV + ' invalidate_entries_if: the removal phase (loop, unlinking, counters) is proved on the real text; its selection expression (an iterator-adapter chain Verus rejects) is replaced by an ASSUMED contract through a declared rewrite tied to the token hash of that expression, and is exercised by the bounded runtime stand-in only. Iteration: unsync Iter::next, Iter::new and Cache::iter are under contract (what next yields is a binding of the cache map, with its value, not expired at the reading taken for that item; `for .. in self.iter.by_ref()` written as loop/match by a declared rewrite) over an ASSUMED std hash_map::Iter (yields bindings of the map it was created from); the concurrent cache's iterator (dashmap) is exercised by the bounded runtime stand-in only.'),
+                note=_UNS + _ENV + ' invalidate_entries_if: the removal phase (loop, unlinking, counters) is proved on the real text; its selection expression (an iterator-adapter chain Verus rejects) is replaced by an ASSUMED contract through a declared rewrite tied to the token hash of that expression, and is exercised by the bounded runtime stand-in only. Iteration: unsync Iter::next, Iter::new and Cache::iter are under contract (what next yields is a binding of the cache map, with its value, not expired at the reading taken for that item; `for .. in self.iter.by_ref()` written as loop/match by a declared rewrite) over an ASSUMED std hash_map::Iter (yields bindings of the map it was created from); the iterator of the concurrent cache (dashmap) is exercised by the bounded runtime stand-in only.'),
     'C03': dict(technique='Verus contracts: free-space branch of handle_insert, frame and precision clauses of the housekeeping functions (expiry scans purge only expired entries), weight invariant',
                 text='an insert that fits is proved to add the entry and remove nobody; housekeeping is proved to remove nothing when within capacity and without expiry, and with expiry to purge only entries whose deadline has passed at the reading of the call; counters proved exact so room is never under-estimated',
                 note=_UNS + _ENV + ' That the expiry scans purge only entries whose deadline has passed at the reading of the call (and go on while the front entry is expired) is proved on the real text of remove_expired_ao / remove_expired_wo / evict_expired; it rests on two named axioms (axiom_stamp_ao / axiom_stamp_wo: a list node read through peek_front carries the stamp of the entry whose slot points to it - in src/unsync.rs the stamps physically live in the nodes, read and written through raw pointers), listed with the assumptions.'),
